@@ -22,7 +22,7 @@ ASSUMPTIONS = [
     'appended iterable rows share one key set and contain no empty strings (tableschema reads "" as missing)',
 ]
 BUDGET = {'quick': dict(examples=1600, shards=8, seconds=70),
-          'thorough': dict(examples=40000, shards=16, seconds=1500)}
+          'thorough': dict(examples=40000, shards=16, seconds=1200)}
 
 NAMES_NO_AUTO = [n for n in gen.RES_NAMES if not re.fullmatch(r'res_\d+', n)]
 
@@ -47,7 +47,7 @@ def sizes(tier_big=False):
 def tagged_pkg(draw, min_res=1, max_res=5, names=None, allow_big=True):
     n = draw(st.integers(min_res, max_res))
     chosen = draw(st.lists(st.sampled_from(names or gen.RES_NAMES), min_size=n, max_size=n, unique=True))
-    big_at = draw(st.integers(0, 40)) if allow_big else 99
+    big_at = draw(st.integers(0, n - 1)) if (allow_big and gen.rare(draw, 40)) else 99
     pkg = []
     for i, nm in enumerate(chosen):
         flds = draw(gen.fields(1, 3, names=gen.FIELD_NAMES, types=gen.TYPES_BASIC))
